@@ -149,29 +149,194 @@ def _literal_readers(repo, chk, it, rd):
         chk.floor(f'{reader_name} lines', n, 600)
 
 
-def _symbol_reader(repo, chk, it, rd, tok):
-    """read_symbol_token, interpreted on every concatenation of up to two symbol spellings (and every symbol followed by
-    each other symbol's first character): the token returned is the longest symbol that is a prefix of the text."""
+def fixed_token_readers(repo, chk, rule='C12.R3'):
+    """read_symbol_token and read_ident_or_keyword_token, interpreted under both iteration orders of every set the lexer
+    package builds (Interp.set_order: each pair of fixed tokens is met in both relative orders, so a table or a trial
+    order that depends on the hash seed shows up as a difference from the reference in one of the two runs).
+
+    symbols: every concatenation of up to two symbol spellings (and symbol, blank, symbol; and every keyword) - the token
+    returned is the enum member of the longest symbol that is a prefix of the text, None when there is none.
+    words: every keyword, every keyword with one more letter and with its last letter removed - exactly the keywords
+    come back as their enum member, everything else as a plain identifier of that spelling."""
+    import re as _re
+    ident_re = _re.compile(r'[a-zA-Z_]\w*')
+    n_texts = 0
+    for order in ('fwd', 'rev'):
+        it = Interp(repo)
+        it.set_order = order
+        rd = it.load(READERS)
+        tok = it.load(TOKENS)
+        sc = it.load(SCANNER)
+        SC, Scanner = sc['SourceCode'], sc['Scanner']
+        enum_tokens = list(tok['enum_tokens'])
+        spell = {str(t_): t_ for t_ in enum_tokens if not ident_re.fullmatch(str(t_))}
+        words = {str(t_): t_ for t_ in enum_tokens if ident_re.fullmatch(str(t_))}
+        reader = rd.get('read_symbol_token')
+        if reader is None:
+            raise AnalysisError('read_symbol_token not found')
+        some = sorted(spell)[:5]
+        texts = set(spell) | {a_ + b_ for a_ in spell for b_ in spell} | {a_ + ' ' + b_ for a_ in spell for b_ in some} | \
+            {'a', '1', ' +', ''} | set(words)
+        bad = None
+        for text in sorted(texts):
+            cands = [sp for sp in spell if text.startswith(sp)]
+            want = max(cands, key=len) if cands else None
+            scan = Scanner(SC('f', [text]))
+            try:
+                got = reader(scan)
+            except Exception as e:      # noqa: BLE001
+                bad = bad or f'{text!r}: {type(e).__name__}: {e}'
+                continue
+            ok = (got is None and want is None and scan.col == 0) or (want is not None and got is spell[want] and scan.col == len(want))
+            if not ok and bad is None:
+                bad = f'{text!r}: read {got!r} up to column {scan.col}; the longest symbol at the start is {want!r}'
+        n_texts += len(texts)
+        chk.expect(bad is None, rule, f'read_symbol_token [set order {order}]', bad or f'{len(texts)} texts: longest symbol wins', READERS)
+        wreader = rd.get('read_ident_or_keyword_token')
+        if wreader is None:
+            raise AnalysisError('read_ident_or_keyword_token not found')
+        wtexts = set(words) | {w + 'x' for w in words} | {w[:-1] for w in words if len(w) > 1} | {w + '1' for w in words} | {'_', 'x'}
+        bad = None
+        for text in sorted(wtexts):
+            scan = Scanner(SC('f', [text]))
+            try:
+                got = wreader(scan)
+            except Exception as e:      # noqa: BLE001
+                bad = bad or f'{text!r}: {type(e).__name__}: {e}'
+                continue
+            if text in words:
+                ok = got is words[text]
+            else:
+                ok = type(got).__name__ == 'Ident' and got.base_name == text and getattr(got.flavor, 'name', None) == 'NONE'
+            if not (ok and scan.col == len(text)) and bad is None:
+                bad = f'{text!r}: read {got!r} up to column {scan.col}'
+        n_texts += len(wtexts)
+        chk.expect(bad is None, rule, f'read_ident_or_keyword_token [set order {order}]',
+                   bad or f'{len(wtexts)} words: exactly the keywords are read as fixed tokens', READERS)
+    return n_texts
+
+
+def lexer_tabulation(repo, chk, symbol_spellings, order=None, small=False, rule='C12.R5'):
+    import itertools
+    import re as _re
+    it = Interp(repo)
+    it.allow_generators = True
+    it.set_order = order
+    keywords = {sp for sp in symbol_spellings if sp[0].isalpha()}
+    int_forms = [(_re.compile(REFERENCE['hex_literal']), 16), (_re.compile(REFERENCE['oct_literal']), 8),
+                 (_re.compile(REFERENCE['bin_literal']), 2), (_re.compile(REFERENCE['dec_literal']), 10)]
+    lexmod = it.load(LEXER)
     sc = it.load(SCANNER)
-    SC, Scanner = sc['SourceCode'], sc['Scanner']
-    reader = rd.get('read_symbol_token')
-    syms = list(rd['symbol_tokens'])
-    spell = {str(s_): s_ for s_ in syms}
-    texts = set(spell) | {a + b for a in spell for b in spell} | {a + ' ' + b for a in spell for b in list(spell)[:5]} | {'a', '1', ' +', ''}
+    SC = sc['SourceCode']
+    lex = lexmod.get('lex')
+    if lex is None:
+        raise AnalysisError('lex not found in hidc/lexer/__init__.py')
+    LexErr = it.load(READERS)['LexerError']
+    syms = sorted((sp for sp in symbol_spellings if not sp[0].isalpha()), key=len, reverse=True)
+
+    def reference(lines):
+        """[(kind, text, (line, col), (line, endcol))] or 'error', and the end cursor."""
+        out = []
+        for li, text in enumerate(lines):
+            i = 0
+            while i < len(text):
+                c = text[i]
+                if c.isspace():
+                    i += 1
+                    continue
+                if text.startswith('//', i):
+                    break
+                m = next((sp for sp in syms if text.startswith(sp, i)), None)
+                if m is not None:
+                    out.append(('sym', m, (li, i), (li, i + len(m))))
+                    i += len(m)
+                    continue
+                k = i + 1 if c in '@!' else i
+                if k < len(text) and (text[k].isascii() and text[k].isalpha() or text[k] == '_'):
+                    j = k
+                    while j < len(text) and (text[j].isalnum() or text[j] == '_'):
+                        j += 1
+                    if text[k:j] in keywords:
+                        if k > i:
+                            return 'error', None
+                        out.append(('sym', text[k:j], (li, i), (li, j)))
+                    else:
+                        out.append(('ident', text[i:j], (li, i), (li, j)))
+                    i = j
+                    continue
+                if k > i:
+                    return 'error', None
+                if c.isdigit():
+                    hit = None
+                    for pat, base in int_forms:
+                        mm = pat.match(text, i)
+                        if mm:
+                            hit = (int(mm.group().replace('_', ''), base), mm.end())
+                            break
+                    if hit is None or hit[0] >= 2 ** 31 and False:
+                        return 'error', None
+                    out.append(('int', hit[0], (li, i), (li, hit[1])))
+                    i = hit[1]
+                    continue
+                if c == '"':
+                    r = _ref_string(text[i:], ESCAPES)
+                    if r == 'error':
+                        return 'error', None
+                    out.append(('str', r[0], (li, i), (li, i + r[1])))
+                    i += r[1]
+                    continue
+                if c == "'":
+                    r = _ref_char(text[i:], ESCAPES)
+                    if r == 'error':
+                        return 'error', None
+                    out.append(('char', r[0], (li, i), (li, i + r[1])))
+                    i += r[1]
+                    continue
+                return 'error', None
+        end = out[-1][3] if out else (0, 0)
+        return out, end
+    alphabet = ['a', '1', ' ', '+', '=', '/', '<']
+    depth = 3 if small else 5 if chk.tier == 'thorough' else 4
+    one = [''.join(t) for n in range(0, depth) for t in itertools.product(alphabet, repeat=n)]
+    sources = [[l] for l in one] + [[x, y] for x in ('', 'a', 'a ', '//a', 'a//', '+ ', ' ') for y in ('', '1', ' 1', '//', '=a', ' ')] + \
+              [['a', '', ' 1 ', '// c', '=='], [], ['a  +\t1'], ['a\x0b\x0c1\u2003+\xa0', '\u3000//'],
+               ['@a !a != !=a !b==1', 'x'], ['@if'], ['@ a'], ['!'], ['@1'], ['if iff i else1 while(true)'],
+               ['"a b" \'c\' "" 0x1F 0b1_0 0o7', '"\\n//" // "', "'\\''"], ['"abc'], ["''"], ['0x'], ['1_'], ['a.b(c)[1]{;},??'],
+               ['x+=1;y<=2;z>=3;w*=4;v-=5;u/=6;t%=7;s==8;r!=9'], ['\u00e9'], ['#']]
     bad = None
-    for text in sorted(texts):
-        cands = [sp for sp in spell if text.startswith(sp)]
-        want = max(cands, key=len) if cands else None
-        scan = Scanner(SC('f', [text]))
+    n = 0
+    for lines in sources:
+        want = reference(lines)
         try:
-            got = reader(scan)
+            res = lex(SC('f', list(lines)))
+            toks = list(res.items)
+            got = []
+            for lx in toks:
+                t_ = lx.token
+                tn = type(t_).__name__
+                if tn == 'Ident' or tn == 'IdentToken':
+                    kind, val = 'ident', str(getattr(t_.flavor, 'value', '')) + t_.base_name
+                elif tn == 'IntToken':
+                    kind, val = 'int', t_.data
+                elif tn == 'StringToken':
+                    kind, val = 'str', t_.data
+                elif tn == 'CharToken':
+                    kind, val = 'char', t_.data
+                else:
+                    kind, val = 'sym', str(getattr(t_, 'value', t_))
+                got.append((kind, val, (lx.span.start.line, lx.span.start.col), (lx.span.end.line, lx.span.end.col)))
+            endc = res.value
+            got = (got, (endc.line, endc.col) if endc is not None else None)
+        except LexErr:
+            got = ('error', None)
         except Exception as e:      # noqa: BLE001
-            bad = bad or f'{text!r}: {type(e).__name__}: {e}'
-            continue
-        ok = (got is None and want is None and scan.col == 0) or (want is not None and got is spell[want] and scan.col == len(want))
-        if not ok and bad is None:
-            bad = f'{text!r}: read {got!r} up to column {scan.col}; the longest symbol at the start is {want!r}'
-    chk.expect(bad is None, 'C12.R3', 'read_symbol_token', bad or f'{len(texts)} texts: longest symbol wins', READERS)
+            got = (f'{type(e).__name__}: {e}', None)
+        n += 1
+        if got != want and bad is None:
+            bad = f'{lines!r}: lexed as {got!r}, reference {want!r}'
+    chk.expect(bad is None, rule, 'lex(): tokens, spans and end position' + (f' [set order {order}]' if order else ''),
+               bad or f'{n} sources agree with the reference tokenisation', LEXER)
+    return n
 
 
 def _scanner_tabulation(repo, chk):
@@ -282,6 +447,11 @@ def run(repo, chk):
     langs = {}
     for name, ref in REFERENCE.items():
         pat = rd.get(name)
+        if name == 'ignore' and not hasattr(pat, 'pattern'):
+            # wherever the blank / comment pattern lives in the lexer package; its effect is also decided by lex() interpreted
+            pat = next((ns_[name] for ns_ in (it.load(SCANNER), it.load(LEXER)) if hasattr(ns_.get(name), 'pattern')), None)
+            if pat is None:
+                continue
         if pat is None or not hasattr(pat, 'pattern'):
             chk.fail('C12.R1', f'pattern {name}', 'compiled pattern not found in readers.py', READERS)
             continue
@@ -298,7 +468,7 @@ def run(repo, chk):
             chk.fail('C12.R1', f'pattern {name}', f'{pat.pattern!r} {"accepts" if ina else "rejects"} the text {word!r} '
                      f'but the documented language {"accepts" if inb else "rejects"} it', READERS)
     chk.count('patterns_compared', len(langs))
-    chk.floor('patterns compared', len(langs), 9)
+    chk.floor('patterns compared', len(langs), 8)
     # group counts: byte/unicode escapes capture exactly the digits
     for name in ('byte_escape', 'unicode_escape'):
         if name in langs:
@@ -332,22 +502,19 @@ def run(repo, chk):
     order = [p for p, _, _ in pairs]
     chk.expect(order and order[-1] == 'dec_literal' and set(order) == set(BASES), 'C12.R1', 'read_int_token::order',
                f'prefixed literals must be tried before the decimal pattern (0x10 would otherwise lex as 0): {order}', READERS)
-    rb = repo.find_func(READERS, 'read_byte_escape')
-    rets = [src(n.value) for n in ast.walk(rb) if isinstance(n, ast.Return) and n.value is not None]
-    chk.expect(rets == ['bytes([int(escape, 16)])'], 'C12.R2', 'read_byte_escape::value',
-               f'must return the single byte as a (non-empty, hence truthy) bytes object: {rets}', READERS)
-    rc = repo.find_func(READERS, 'read_char_escape')
-    rets = [src(n.value) for n in ast.walk(rc) if isinstance(n, ast.Return) and n.value is not None]
-    chk.expect(rets == ['chr(codepoint)', 'escape_codes[char]'], 'C12.R2', 'read_char_escape::values', f'{rets}', READERS)
-    cp = [src(n.value) for n in ast.walk(rc) if isinstance(n, ast.Assign) and src(n.targets[0]) == 'codepoint']
-    chk.expect(cp == ['int(escape, 16)'], 'C12.R2', 'read_char_escape::codepoint', f'{cp}', READERS)
+    # what the escape readers return (a non-empty bytes object for \\xHH - also for \\x00 -, chr(n) for \\u{n}, the table entry
+    # otherwise) is decided by interpreting the string / char readers on every short line (_literal_readers) and by the code
+    # point boundary tabulation below
+    rc = repo.find_func(READERS, 'read_char_escape', required=False)
 
     # \u{...}: the reader touches the code point only through comparisons with constants and chr(); tabulating the
     # representatives around every such constant (and around the Unicode limits) therefore covers all code points
     consts = {0, 0x7F, 0x80, 0xD7FF, 0xD800, 0xDFFF, 0xE000, 0xFFFF, 0x10000, 0x10FFFF, 0x110000, 0x7FFFFFFF, 0xFFFFFFFFFF}
-    for n in ast.walk(rc):
-        if isinstance(n, ast.Constant) and isinstance(n.value, int) and not isinstance(n.value, bool):
-            consts |= {n.value - 1, n.value, n.value + 1}
+    for fn_ in ast.walk(repo.module(READERS)):          # every integer constant any reader compares with
+        if isinstance(fn_, (ast.FunctionDef, ast.AsyncFunctionDef)):
+            for n in ast.walk(fn_):
+                if isinstance(n, ast.Constant) and isinstance(n.value, int) and not isinstance(n.value, bool) and n.value > 15:
+                    consts |= {n.value - 1, n.value, n.value + 1}
     for n in ast.walk(repo.module(READERS)):
         if isinstance(n, ast.Assign) and isinstance(n.value, ast.Constant) and isinstance(n.value.value, int) and n.value.value > 255:
             consts |= {n.value.value - 1, n.value.value, n.value.value + 1}
@@ -394,22 +561,16 @@ def run(repo, chk):
     # ---------------- R3 ----------------------------------------------------------------
     tok = it.load(TOKENS)
     enum_tokens = tok.get('enum_tokens')
-    kw = rd.get('keyword_tokens')
-    sy = rd.get('symbol_tokens')
-    if not enum_tokens or kw is None or sy is None:
-        raise AnalysisError('enum_tokens / keyword_tokens / symbol_tokens not found')
+    if not enum_tokens:
+        raise AnalysisError('enum_tokens not found')
     import re as _re
     ident_re = _re.compile(r'[a-zA-Z_]\w*')
-    want_kw = {str(t): t for t in enum_tokens if ident_re.fullmatch(str(t))}
-    chk.expect(kw == want_kw, 'C12.R3', 'keyword_tokens', f'keywords {sorted(kw)} vs identifier-like enum tokens {sorted(want_kw)}', READERS)
-    want_sy = {t for t in enum_tokens if not ident_re.fullmatch(str(t))}
-    chk.expect(set(sy) == want_sy and len(sy) == len(want_sy), 'C12.R3', 'symbol_tokens set', f'{sorted(map(str, sy))}', READERS)
-    spell = [str(s) for s in sy]
-    bad = [(a, b) for i, a in enumerate(spell) for b in spell[i + 1:] if b.startswith(a) and b != a]
-    chk.expect(not bad, 'C12.R3', 'symbol_tokens order', f'a symbol is tried before a longer symbol it is a prefix of: {bad[:4]} '
-               '(e.g. `<=` would lex as `<` `=`)', READERS)
-    chk.expect(len(set(spell)) == len(spell), 'C12.R3', 'symbol spellings unique', '', TOKENS)
-    _symbol_reader(repo, chk, it, rd, tok)
+    spell = [str(t_) for t_ in enum_tokens if not ident_re.fullmatch(str(t_))]
+    all_spellings = [str(t_) for t_ in enum_tokens]
+    chk.expect(len(set(all_spellings)) == len(all_spellings), 'C12.R3', 'fixed token spellings unique', '', TOKENS)
+    # keyword / symbol partition and the trial order of the symbols: decided by interpreting the two readers of fixed
+    # tokens, whatever tables they use
+    chk.count('fixed_token_texts', fixed_token_readers(repo, chk))
     chk.count('enum_tokens', len(enum_tokens))
     chk.floor('enum tokens', len(enum_tokens), 40)
     # spellings of the enum tokens (documented)
@@ -478,36 +639,12 @@ def run(repo, chk):
             else:
                 chk.expect(not inter, 'C12.R4', f'first characters {a}/{b}', f'overlap {[symbol_name(s) for s in inter]}: reader '
                            'order would matter', READERS)
-    # comment start is consumed by skip_whitespace before any reader sees `/`
-    sw = src(repo.find_func(READERS, 'skip_whitespace'))
-    chk.expect('scan.match(ignore)' in sw and 'scan.linebreak()' in sw, 'C12.R4', 'skip_whitespace', 'comments/whitespace then line breaks, repeated', READERS)
-
-    # ---------------- R5 ------------------------------------------------------------------
-    paths = efg.enumerate_paths(lex, unroll=(1,))
-    ok_paths = 0
-    for p in paths:
-        ev = p.events
-        names_ = [e.short() for e in ev if e.kind in ('call', 'emit', 'assign', 'return')]
-        em = [i for i, e in enumerate(ev) if e.kind == 'emit']
-        if not em:
-            continue
-        i_ws = [i for i, e in enumerate(ev) if e.kind == 'call' and e.func == '.skip_whitespace']
-        i_mark = [i for i, e in enumerate(ev) if e.kind == 'assign' and e.target == 'marker' and src(e.value) == 'scan.mark()']
-        i_read = [i for i, e in enumerate(ev) if e.kind == 'call' and e.func in reader_calls]
-        i_adv = [i for i, e in enumerate(ev) if e.kind == 'call' and e.func == '.advance' and src(e.recv) == 'marker']
-        if i_ws and i_mark and i_read and i_adv:
-            last_mark = max(m for m in i_mark if m < i_read[0]) if any(m < i_read[0] for m in i_mark) else None
-            good = last_mark is not None and any(w < last_mark for w in i_ws) and not any(last_mark < w < i_read[0] for w in i_ws) \
-                and i_read[-1] < i_adv[0] < em[0] + 1
-            if good and ev[em[0]].ctor == 'Lexeme' and [src(a) for a in ev[em[0]].args] == ['tok', 'marker.advance()']:
-                ok_paths += 1
-            else:
-                chk.fail('C12.R5', 'lex::span order', 'the span must start at a mark taken after whitespace was skipped and end at '
-                         'the cursor after the reader returned', LEXER)
-                break
-    chk.expect(ok_paths > 0, 'C12.R5', 'lex::span order', f'{ok_paths} token-producing paths', LEXER)
-    rets = [src(n.value) for n in ast.walk(lex) if isinstance(n, ast.Return) and n.value is not None]
-    chk.expect(rets == ['marker.cursor'], 'C12.R5', 'lex::end position', f'{rets}', LEXER)
+    # whitespace / comment skipping, token boundaries, spans and the end position: lex() interpreted on every source of up to
+    # two short lines over an alphabet with a letter, a digit, blanks, operators and the comment starter, against a
+    # reference tokenisation (maximal munch over the documented symbol set)
+    n_src = lexer_tabulation(repo, chk, all_spellings)
+    chk.count('lexer_sources', n_src)
+    chk.floor('lexer sources', n_src, 300)
     _scanner_tabulation(repo, chk)
 
     # ---------------- R6 -------------------------------------------------------------------
